@@ -414,6 +414,9 @@ pub fn expected_wire(val: &GVal, ser_ty: VariantType) -> GVal {
             oracle::quantise(c[1]),
             oracle::quantise(c[2]),
         ]),
+        // a narrower number given for a 64-bit property is stored widened
+        GVal::Int32(i) if ser_ty == VariantType::Int64 => GVal::Int64(*i as i64),
+        GVal::Float32(b) if ser_ty == VariantType::Float64 => GVal::Float64((f32::from_bits(*b) as f64).to_bits()),
         other => other.clone(),
     }
 }
